@@ -34,6 +34,12 @@ func (s *State) assume(t *Term) {
 	if t == True {
 		return
 	}
+	// skip exact duplicates among the most recent assumptions
+	for i := len(s.assumes) - 1; i >= 0 && i >= len(s.assumes)-12; i-- {
+		if s.assumes[i] == t {
+			return
+		}
+	}
 	if t == False {
 		s.dead = true
 	}
@@ -50,6 +56,7 @@ type Obligation struct {
 	Text    string
 	Props   []string
 	Trivial bool
+	Clause  *Clause
 	Result  *SolveResult
 	// for replay
 	fi *FuncInfo
@@ -96,6 +103,7 @@ type Exec struct {
 	paths      int
 	curProps   []string
 	loadSeen   map[string]bool
+	curClause        *Clause
 	usedContracts    map[string]bool
 	pendingWriteBack []writeBack
 }
@@ -174,12 +182,19 @@ func (x *Exec) obligeNamed(s *State, name, kind string, goal *Term, p string, te
 	if x.dry > 0 || s.dead {
 		return
 	}
+	if goal.K == TApp && goal.Op == "and" && len(goal.Args) <= 24 {
+		for i, g := range goal.Args {
+			x.obligeNamed(s, fmt.Sprintf("%s.c%d", name, i+1), kind, g, p, text)
+		}
+		return
+	}
 	o := &Obligation{Name: name, Kind: kind, Func: x.top.Key, Goal: goal, Pos: p, Text: text, fi: x.top, Props: x.curProps}
 	if goal == True {
 		o.Trivial = true
 	} else {
 		o.Hyps = append([]*Term(nil), s.assumes...)
 	}
+	o.Clause = x.curClause
 	x.obls = append(x.obls, o)
 }
 
